@@ -1,5 +1,6 @@
 import RdsProofs.Reach
 import RdsProofs.WFProofs
+import RdsProofs.AuditC05C16
 /-!
 # Property C16 — text buffers are always well-formed, printable and terminated
 
@@ -10,6 +11,9 @@ marker or else the capacity. `wf_run` is the underlying invariant `WF` for every
 -/
 -- THEOREM: RDS.C16
 -- THEOREM: RDS.wf_run
+-- THEOREM: RDS.C16_level_received
+-- THEOREM: RDS.C16_level_received_exists
+-- THEOREM: RDS.C16_available_received
 namespace RDS
 
 /-- C16 for every history and every next call -/
